@@ -24,6 +24,7 @@
  *   FP   first-pass segmentation (decoder_seg_iter) incl. non-dictionary segments
  *   D/LD/LR/IN/RS   dictionary pronunciations and the dict2pid context tables of the words involved
  *   A    result of decoder_alignment (null | ok), REUSE = result of calling it a second time
+ *   OFA  acmod->output_frame right after that first decoder_alignment call
  *   X    per phone: the senones it must have in its context by DIRECT model-definition lookup
  *        (bin_mdef_phone_id_nearest + pid2ssid + sseq; not through dict2pid) = input expSen of alignOKB
  *   W/P/S   the alignment through the flat iterators (alignment_words/phones/states + iter_seg + iter_name)
@@ -35,6 +36,10 @@
  *        second pass (same calls as decoder_alignment's loop) and MFINAL/MTOK = its token stack
  *   ROFF/RSEN/RFINAL/RTOK  (directive `renormprobe <score>`) the same hand-stepped pass started with the entry score
  *        <score> (close to the renormalisation threshold) instead of 0: exercises renormalize_hmms
+ *   DCUT/DSEN/DFINAL/DTOK/DFIN  (directive `deadprobe <k>`) the same hand-stepped pass stopped after
+ *        Td = sf[last phone] + k frames (k = 1: exit state never evaluated, 2: evaluated but dead, 3..: usually alive),
+ *        its token stack, and the return value of state_align_search_finish on it: the dead-final-state theorem
+ *        (C04_dead_final_no_alignment) on the real search
  */
 #include "common.h"
 #include <math.h>
@@ -74,6 +79,7 @@ static char addw[16][2][256];
 static int naddw;
 static int jlev[32], njson;
 static long renormprobe;
+static int deadprobe;
 static double jstart[32];
 static uint8 *tp_saved;
 
@@ -309,7 +315,7 @@ static void print_tokens(const char *tag, state_align_search_t *sas)
 
 /* hand-stepped second pass: the same calls as the loop of decoder_alignment, on a fresh alignment built from
  * the same first-pass words, recording the senone scores every state saw */
-static void manual_second_pass(alignment_t *ref, const char *pfx, int32 in_score)
+static void manual_second_pass(alignment_t *ref, const char *pfx, int32 in_score, int cut)
 {
     alignment_t *al = alignment_init(d->d2p);
     alignment_iter_t *it;
@@ -338,7 +344,7 @@ static void manual_second_pass(alignment_t *ref, const char *pfx, int32 in_score
         int fr = d->acmod->output_frame;
         int16 const *sen;
         unsigned char *act;
-        if (fr >= rs->frame) { acmod_advance(d->acmod); continue; } /* as many frames as decoder_alignment stepped */
+        if (fr >= rs->frame || (cut >= 0 && fr >= cut)) { acmod_advance(d->acmod); continue; } /* as many frames as decoder_alignment stepped */
         /* which HMMs the step evaluates: only their senones are requested from the scorer (the step clears the
          * active set first), the entries of all other senones are leftovers the search never reads: dumped as 0 */
         act = (unsigned char *)calloc((size_t)sas->n_phones + 1, 1);
@@ -355,6 +361,7 @@ static void manual_second_pass(alignment_t *ref, const char *pfx, int32 in_score
     }
     printf("%sSENEND %d\n", pfx[0] == 'M' ? "" : pfx, ok);
     print_tokens(pfx, sas);
+    if (cut >= 0) printf("DFIN %d %d\n", cut, search_module_finish(sm) < 0 ? -1 : 0);
     search_module_free(sm);
 }
 
@@ -516,6 +523,9 @@ static void request(const char *tag)
     }
     out_flush();
     al = decoder_alignment(d);
+    /* where the request left the acoustic front end: a request — answered or refused — hands the first pass back at the
+     * frame it was made at (wrapper model: Dec.outFrame after Wrap.request; C04_wrapper_refused_request_is_noop) */
+    printf("OFA %d\n", (int)d->acmod->output_frame);
     if (al)
         for (i = 0; i < al->word.n_ent; i++) add_wid(al->word.seq[i].id.wid);
     print_dict_tables();
@@ -548,8 +558,15 @@ static void request(const char *tag)
         for (i = 0; i < sas->n_phones; i++) printf(" %d", sas->ef[i]);
         printf("\n");
         print_tokens("", sas);
-        if (dumpsen) manual_second_pass(al, "M", 0);
-        if (dumpsen && renormprobe) manual_second_pass(al, "R", (int32)renormprobe);
+        if (dumpsen) manual_second_pass(al, "M", 0, -1);
+        if (dumpsen && renormprobe) manual_second_pass(al, "R", (int32)renormprobe, -1);
+        if (dumpsen && deadprobe) {
+            int cut = sas->sf[sas->n_phones - 1] + deadprobe;
+            if (cut > sas->frame) cut = sas->frame;
+            if (cut < 0) cut = 0;
+            printf("DCUT %d\n", cut);
+            manual_second_pass(al, "D", 0, cut);
+        }
     }
     json_calls();
     printf("ENDREQ\n");
@@ -640,7 +657,7 @@ int main(int argc, char **argv)
         if (n == 0) continue;
         if (!strcmp(w[0], "case") && n >= 2) {
             snprintf(caseid, sizeof(caseid), "%s", w[1]);
-            ncfg = 0; npartial = 0; early = 0; dumpsen = 0; gkind = 0; tmatskip = 0; naddw = 0; preend = 0; njson = 0; renormprobe = 0;
+            ncfg = 0; npartial = 0; early = 0; dumpsen = 0; gkind = 0; tmatskip = 0; naddw = 0; preend = 0; njson = 0; renormprobe = 0; deadprobe = 0;
             strcpy(mode, "stream"); chunk = 4096; nchunkseq = 0; nutts = 0;
         } else if (!strcmp(w[0], "cfg") && n == 3 && ncfg < MAXCFG) {
             snprintf(cfgk[ncfg], 64, "%s", w[1]);
@@ -698,6 +715,8 @@ int main(int argc, char **argv)
             dumpsen = atoi(w[1]);
         } else if (!strcmp(w[0], "renormprobe") && n == 2) {
             renormprobe = atol(w[1]);
+        } else if (!strcmp(w[0], "deadprobe") && n == 2) {
+            deadprobe = atoi(w[1]);
         } else if (!strcmp(w[0], "synth") && n >= 6) {
             synth(w[1], (uint64_t)strtoull(w[2], NULL, 10), atoi(w[3]), atoi(w[4]), n - 5, w + 5);
         } else if (!strcmp(w[0], "run")) {
